@@ -57,7 +57,7 @@ try:
     for i in range(1, 18):
         p = 'C%02d' % i
         r = sh('./check %s' % p, VERIF)
-        keys = re.findall(r'^(?:VIOLATION|UNRECOGNISED|VACUOUS) (\S+) at', r.stdout, re.M)
+        keys = re.findall(r'^(?:VIOLATION|UNRECOGNISED|VACUOUS) (.+?) at ', r.stdout, re.M)
         if r.returncode != 0 or keys:
             det[p] = keys
 finally:
